@@ -83,13 +83,36 @@ impl PartialOrd for LocalSegment {
     }
 }
 
+impl LocalSegment {
+    /// Decimal digits (without leading zeros) of a numeric segment. Numbers beyond u32 are
+    /// stored as `Str`, but they are still numbers when versions are compared.
+    fn numeric_digits(&self) -> Option<String> {
+        match self {
+            LocalSegment::UInt(n) => Some(n.to_string()),
+            LocalSegment::Str(s) if !s.is_empty() && s.bytes().all(|b| b.is_ascii_digit()) => {
+                let digits = s.trim_start_matches('0');
+                Some(if digits.is_empty() { "0" } else { digits }.to_string())
+            }
+            LocalSegment::Str(_) => None,
+        }
+    }
+
+    fn folded_text(&self) -> String {
+        match self {
+            LocalSegment::Str(s) => s.to_lowercase(),
+            LocalSegment::UInt(n) => n.to_string(),
+        }
+    }
+}
+
 impl Ord for LocalSegment {
     fn cmp(&self, other: &Self) -> Ordering {
-        match (self, other) {
-            (LocalSegment::UInt(a), LocalSegment::UInt(b)) => a.cmp(b),
-            (LocalSegment::Str(a), LocalSegment::Str(b)) => a.to_lowercase().cmp(&b.to_lowercase()),
-            (LocalSegment::UInt(_), LocalSegment::Str(_)) => Ordering::Less,
-            (LocalSegment::Str(_), LocalSegment::UInt(_)) => Ordering::Greater,
+        match (self.numeric_digits(), other.numeric_digits()) {
+            // By value: more digits is the larger number, equal length compares digit-wise
+            (Some(a), Some(b)) => a.len().cmp(&b.len()).then_with(|| a.cmp(&b)),
+            (Some(_), None) => Ordering::Less,
+            (None, Some(_)) => Ordering::Greater,
+            (None, None) => self.folded_text().cmp(&other.folded_text()),
         }
     }
 }
